@@ -1,6 +1,7 @@
 import ExaModel.Lemmas.Wire
 import ExaModel.Lemmas.WireMerge
 import ExaModel.Lemmas.WireCountTlv
+import ExaModel.Lemmas.WireExaFind
 import ExaModel.Generated.AttrTable
 import ExaModel.Generated.FamilyTable
 set_option linter.unusedSimpArgs false
@@ -193,6 +194,49 @@ theorem family_table_matches_rfc :
       (Exa.Generated.FamilyTable.safiHasLabel.contains safi = hasLabel safi) ∧
       (Exa.Generated.FamilyTable.safiHasRd.contains safi = hasRd safi) := by decide
 
+/-! ### AIGP follows the session (RFC 7311 §3.3)
+
+M-Wire carries AIGP (type 26, optional non-transitive) as the bytes it is. Whether it belongs to the
+report is a parameter of the session: `Params.aigp`. The harness builds sessions of both kinds from
+real OPENs (`capability aigp`) and compares what ExaBGP reports for type 26 with this. -/
+
+open Exa.WireExa in
+/-- AIGP_SESSION disabled: whatever the message carries under type 26 with the flags of RFC 7311
+    (optional, non-transitive), nothing is reported for type 26. -/
+theorem aigp_absent_when_session_disabled (p : Params) (u : UpdateSem) (hp : p.aigp = false)
+    (h : ∀ a ∈ u.attrs, a.code = 26 → a.flags.trans = false ∧ ∃ raw, a.val = .unknown 26 raw) :
+    reportAttr p u 26 = none := by
+  rw [reportAttr_eq]
+  apply findSome_none_of_all
+  intro a ha
+  by_cases hc : a.code = 26
+  · obtain ⟨ht, raw, hv⟩ := h a ha hc
+    simp [repAt, reportVal, hv, ht, hp]
+  · exact repAt_none p u.attrs 26 a hc
+
+open Exa.WireExa in
+/-- AIGP_SESSION enabled: the first attribute of type 26 is reported, with exactly its bytes. -/
+theorem aigp_reported_when_session_enabled (p : Params) (u : UpdateSem) (hp : p.aigp = true)
+    (pre post : List Attr) (a : Attr) (raw : Bytes) (hu : u.attrs = pre ++ a :: post)
+    (hpre : ∀ x ∈ pre, x.code ≠ 26) (hv : a.val = .unknown 26 raw) :
+    reportAttr p u 26 = some (.unknown 26 raw) := by
+  rw [reportAttr_eq, hu, findSome_append,
+    findSome_none_of_all pre _ (fun x hx => repAt_none p _ 26 x (hpre x hx))]
+  simp [List.findSome?_cons, repAt, reportVal, hv, hp, aigpCode, AttrVal.code]
+
+/-- Nothing else of the report depends on the AIGP parameter: two sessions that differ in it only
+    report the same routes, the same End-of-RIB and, type 26 apart, the same attributes. -/
+theorem aigp_changes_type_26_only (p : Params) (u : UpdateSem) (b : Bool) :
+    (report { p with aigp := b } u).announce = (report p u).announce ∧
+    (report { p with aigp := b } u).withdraw = (report p u).withdraw ∧
+    (report { p with aigp := b } u).eor = (report p u).eor ∧
+    ∀ a ∈ u.attrs, a.code ≠ 26 → reportVal { p with aigp := b } u.attrs a = reportVal p u.attrs a := by
+  refine ⟨rfl, rfl, rfl, ?_⟩
+  intro a _ hc
+  unfold Attr.code at hc
+  unfold reportVal
+  cases hv : a.val <;> simp_all [AttrVal.code, aigpCode]
+
 /-! ## Non-vacuity: the hypotheses are satisfiable on non-trivial inputs -/
 
 /-- 2-byte session with ADD-PATH for VPN-IPv4: a labelled VPN route with path id 7, labels
@@ -224,6 +268,9 @@ example : merge6793 [(2, [65002, 23456, 3])] [(2, [70000, 3])] = [(2, [65002]), 
 example : (report pEx uEx).attrs.head? = some (.origin 0) := by decide
 example : ((report pEx uEx).attrs.filterMap (fun v => match v with | .asPath s => some s | _ => none)) =
     [[(2, [65002]), (2, [70000, 3])]] := by decide
+example : Exa.WireExa.reportAttr { pEx with aigp := true } { uEx with attrs := uEx.attrs ++ [⟨⟨true, false, false, false⟩, .unknown 26 [1, 0, 11, 0, 0, 0, 0, 0, 0, 0, 100]⟩] } 26
+    = some (.unknown 26 [1, 0, 11, 0, 0, 0, 0, 0, 0, 0, 100]) := by decide
+example : Exa.WireExa.reportAttr pEx { uEx with attrs := uEx.attrs ++ [⟨⟨true, false, false, false⟩, .unknown 26 [1, 0, 11, 0, 0, 0, 0, 0, 0, 0, 100]⟩] } 26 = none := by decide
 example : (report pEx uEx).announce.length = 2 ∧ (report pEx uEx).withdraw.length = 2 := by decide
 /-- a set counts for one, a confederation segment for none, the cut falls inside a sequence -/
 example : merge6793 [(3, [64512]), (2, [1, 2, 3]), (1, [5, 6]), (2, [9])] [(2, [70000, 9])] =
